@@ -158,6 +158,15 @@ impl Grapheme {
         }
     }
 
+    fn is_single_escape_sequence(s: &str) -> bool {
+        // An escaped character such as `\.`, a shorthand class such as `\d` or a single
+        // unicode escape such as `\u{1f4a9}`, but not an escape sequence followed or
+        // preceded by further characters which would need a group when being quantified.
+        s.starts_with('\\')
+            && (s.chars().count() == 2
+                || (s.starts_with("\\u{") && s.ends_with('}') && s.matches('}').count() == 1))
+    }
+
     fn escape(&self, c: char, use_surrogate_pairs: bool) -> String {
         if c.is_ascii() {
             c.to_string()
@@ -179,7 +188,7 @@ impl Grapheme {
 impl Display for Grapheme {
     fn fmt(&self, f: &mut Formatter<'_>) -> Result {
         let is_single_char = self.char_count(false) == 1
-            || (self.chars.len() == 1 && self.chars[0].matches('\\').count() == 1);
+            || (self.chars.len() == 1 && Self::is_single_escape_sequence(&self.chars[0]));
         let is_range = self.min < self.max;
         let is_repetition = self.min > 1;
         let mut value = if self.repetitions.is_empty() {
